@@ -230,12 +230,15 @@ func checkWrapper(c *core.Ctx) {
 	}
 	// PART: the tests of the two partition loops and the hand-over of the kept records
 	{
-		var tests []string
+		var conds []ast.Expr
 		var newPendingAssigned bool
 		var loops []ast.Stmt
 		for _, st := range flush.Body.List {
 			if rs, ok := st.(*ast.RangeStmt); ok {
 				loops = append(loops, rs)
+			}
+			if fs, ok := st.(*ast.ForStmt); ok {
+				loops = append(loops, fs)
 			}
 			if as, ok := st.(*ast.AssignStmt); ok && len(as.Lhs) == 1 && core.ExprStr(as.Lhs[0]) == "pending" && strings.Contains(core.ExprStr(as.Rhs[0]), "ewPending") {
 				newPendingAssigned = true
@@ -244,15 +247,57 @@ func checkWrapper(c *core.Ctx) {
 		for _, l := range loops {
 			ast.Inspect(l, func(n ast.Node) bool {
 				if is, ok := n.(*ast.IfStmt); ok {
-					tests = append(tests, core.ExprStr(is.Cond))
+					conds = append(conds, is.Cond)
 				}
 				return true
 			})
 		}
-		wmParam := flush.Type.Params.List[1].Names[0].Name
-		want := "pending[i].EventTime.After(" + wmParam + ")"
-		ok := len(tests) == 2 && tests[0] == want && tests[1] == want
-		c.Decide(ok, "PART", key+"/partition test", flush.Pos(), 2, "kept iff EventTime.After(watermark), same test for counting and collecting", fmt.Sprintf("both partition loops must keep a record iff %s; found %v", want, tests))
+		// each test is evaluated for event time {<,=,>} watermark: kept iff strictly later
+		table := func(cond ast.Expr) string {
+			out := ""
+			for _, rel := range []absint.Rel{absint.LT, absint.EQ, absint.GT} {
+				rel := rel
+				in := &absint.Interp{Info: info, Prog: p}
+				in.Hooks.Call = func(st *absint.State, call *ast.CallExpr, callee string, recv absint.Val, args []absint.Val) (absint.Val, bool) {
+					if len(args) != 1 {
+						return nil, false
+					}
+					r := rel
+					if !strings.HasSuffix(recv.Canon(), ".EventTime") {
+						r = map[absint.Rel]absint.Rel{absint.LT: absint.GT, absint.GT: absint.LT, absint.EQ: absint.EQ}[rel]
+					}
+					switch callee {
+					case "time.Time.After":
+						return absint.Bool(r == absint.GT), true
+					case "time.Time.Before":
+						return absint.Bool(r == absint.LT), true
+					case "time.Time.Equal":
+						return absint.Bool(r == absint.EQ), true
+					}
+					return nil, false
+				}
+				res, err := in.RunCond(cond)
+				if err != nil || len(res) != 1 {
+					return "?"
+				}
+				if res[0].Value {
+					out += "1"
+				} else {
+					out += "0"
+				}
+			}
+			return out
+		}
+		ok := len(conds) == 2
+		got := []string{}
+		for _, cd := range conds {
+			tb := table(cd)
+			got = append(got, core.ExprStr(cd)+"→"+tb)
+			if tb != "001" {
+				ok = false
+			}
+		}
+		c.Decide(ok, "PART", key+"/partition test", flush.Pos(), 6, "kept iff event time strictly after the watermark, same test for counting and collecting", fmt.Sprintf("both partition loops must keep a record iff its event time is strictly after the watermark (truth table over <,=,> must be 001); found %v", got))
 		c.Decide(newPendingAssigned, "PART", key+"/hand-over", flush.Pos(), 1, "pending = newPending", "the kept records must become the new pending list")
 		// collecting loop: appended to newPending and crossed out
 		if len(loops) >= 2 {
